@@ -12,7 +12,12 @@ use crate::model::vlq;
 use crate::spec::{Orig, Seg};
 
 pub fn opts(columns: bool, final_source: bool) -> MapOptions {
-  rspack_sources::verif::map_options(columns, final_source)
+  // the public spellings where they exist (final_source can only be set through the hook)
+  match (columns, final_source) {
+    (true, false) => MapOptions::default(),
+    (false, false) => MapOptions::new(false),
+    _ => rspack_sources::verif::map_options(columns, final_source),
+  }
 }
 
 #[derive(Clone, Debug, PartialEq)]
